@@ -293,10 +293,13 @@ def check(prog, run):
         fcn = Canon(f.node)
         tested = {nm for n in own_nodes(f.node) if isinstance(n, (ast.If, ast.IfExp, ast.While)) for names, _ in shapes.class_tests(n.test, param) for nm in names}
         for nm in ("ListType", "NonNullType"):
-            if nm not in tested:
-                continue
             oks, swaps = [], []
-            for kind, st, env in dispatch.executions(hier, f, param, nm):
+            from .. import pathfeas
+            try:
+                _evw, wexits = boolx.walk_under(f.node, pathfeas.decide_with_locals(hier, param, nm))
+            except ValueError as e:
+                raise AnalysisError("C11.W1: %s: %s" % (f.qualname, e))
+            for kind, st, env in wexits:
                 if kind != "return" or st.value is None:
                     if kind != "raise":
                         oks.append(False)
